@@ -36,11 +36,9 @@ def finding_key(e, v):
         return [f"panic:{panic_site(e['panic'][0])}:{e['panic'][1]}:{dom}"]
     if k == "deviation":
         return sorted(v["devs"])
-    if k == "mismatch" and e["k"] == "pfs" and e["s"].startswith("-") and e.get("ok"):
-        # Scaled::parse_from_string applies the sign to the integer part only
-        body = e["s"][:-2]
-        if "." in body and body.split(".")[1].strip("0"):
-            return ["parse_from_string-negative-fraction"]
+    if k == "mismatch" and e["k"] == "pfs" and e["s"].startswith("-"):
+        # Scaled::parse_from_string parses the sign as part of the integer part
+        return ["parse_from_string-negative"]
     return None
 
 
@@ -119,8 +117,9 @@ def run(ctx):
         "entry by entry by TLC in part direct) and for which parse_no_units / parse_from_string return s."
     )
     t0 = time.time()
-    model(ctx)
-    log(f"[c06] model+neg {time.time()-t0:.1f}s")
+    # the model step is independent of the binding: it runs beside it and is joined at the end
+    pool = cf.ThreadPoolExecutor(max_workers=2)
+    model_done = pool.submit(model, ctx)
     stats = Counter()
     # ---------------- direct call events (F) --------------------------------------------------
     d = ctx.work / "direct.ndjson"
@@ -130,7 +129,7 @@ def run(ctx):
     ctx.sample({"direct_event": read_ndjson_line(d, 70000)})
     # ---------------- programs on the VM (F) ---------------------------------------------------
     v = ctx.work / "vm.ndjson"
-    vh(["c06-vm", f"seed={ctx.seed}", f"n={6000 if q else 250000}", f"out={v}"])
+    vh(["c06-vm", f"seed={ctx.seed}", f"n={6000 if q else 320000}", f"out={v}"])
     validate(ctx, "vm", v, stats)
     log(f"[c06] vm done at {time.time()-t0:.1f}s")
     for i in (5, 4000, 4001):
@@ -145,6 +144,11 @@ def run(ctx):
         vh(["c06-sweep", "mode=full", "threads=16", f"out={s}"], timeout=3000)
     r = read_ndjson(s)[0]
     log(f"[c06] sweep done at {time.time()-t0:.1f}s")
+    try:
+        model_done.result()
+    finally:
+        pool.shutdown(wait=True)
+    log(f"[c06] model+neg joined at {time.time()-t0:.1f}s")
     ctx.cov["evaluations"] += r["checked"]
     ctx.cov["parts"]["sweep"] = {"values_checked": r["checked"], "mode": r["mode"], "step": r["step"],
                                  "disagreements": r["bad"]}
